@@ -358,6 +358,7 @@ fn bounds(p: P, tier: Tier) -> Bounds {
         rich: p == P::C14,
         short_unwrap: true,
         shared_lines: tier == Tier::Thorough,
+        shared_pairs: vec![],
     };
     match tier {
         Tier::Quick => Bounds {
@@ -432,7 +433,7 @@ fn case_json(c: &DocCase) -> Value {
 
 fn eval_case(l: &mut Local, p: P, case: &DocCase, sample_ok: bool) {
     l.eval();
-    let h = hash64(&[case.src.as_bytes(), case.ds.as_bytes(), case.de.as_bytes()]);
+    let h = hash64(&[case.src.as_bytes(), case.ds.as_bytes(), case.de.as_bytes(), case.cfg.now.as_bytes(), &[case.cfg.targets.len() as u8]]);
     l.state(h);
     let res = check_doc(case, p);
     l.class(res.class);
@@ -468,6 +469,16 @@ pub fn run(r: &Report, p: P) {
     r.assume("fixed configuration now=2020-01-01T00:00:00Z, offset +00:00, targets {a}; readiness is varied through attribute values (C05/C06 explore the configuration)");
 
     // ---- phase 1: G-ast -----------------------------------------------------------------
+    let cfg_none = Cfg {
+        now: "1990-01-01T00:00:00+00:00".into(),
+        targets: vec![],
+        ..Cfg::standard()
+    };
+    let cfg_all = Cfg {
+        now: "3005-01-01T00:00:00+00:00".into(),
+        targets: vec!["a".into(), "b".into()],
+        ..Cfg::standard()
+    };
     let mv_docs = std::sync::atomic::AtomicU64::new(0);
     {
         let ast = b.ast.clone();
@@ -514,6 +525,17 @@ pub fn run(r: &Report, p: P) {
                                 cfg: cfg.clone(),
                             };
                             eval_case(l, p, &case, ci == 0 && items.len() >= 2);
+                            if ci == 0 && final_newline {
+                                // the same source again on the same thread under configurations
+                                // where nothing / everything is ready (no state may survive a call)
+                                for c2 in [&cfg_none, &cfg_all] {
+                                    let case2 = DocCase {
+                                        cfg: (*c2).clone(),
+                                        ..case.clone()
+                                    };
+                                    eval_case(l, p, &case2, false);
+                                }
+                            }
                         }
                     }
                 }
